@@ -32,6 +32,9 @@ var baseAtoms = []atom{
 	{`0.0`, 2},
 	{`-0.5`, 2},
 	{`2.0`, 2},
+	// two integers next to each other that one float64 stands for (2^53 and 2^53+1)
+	{`9007199254740992`, 2},
+	{`9007199254740993`, 2},
 	{`""`, 2},
 	{`"5"`, 2},
 	{`"true"`, 2},
@@ -103,6 +106,9 @@ var baseAtoms = []atom{
 	{`["asm",5,["sum","@",1]]`, 3},
 	{`["root","src","a"]`, 2},
 	{`["at","src","list"]`, 3},
+	// a path put together from the data (src.s differs from root to root)
+	{`["root","asm","$.src.s"]`, 2},
+	{`["at","asm","@.src.s"]`, 3},
 	{`["list",1,2]`, 2},
 	{`["quote","$.src.a"]`, 2},
 	{`["toupper","a"]`, 2},
